@@ -1,3 +1,6 @@
 import ZCV.Props.C08
 open ZCV.Props.C08
 #print axioms C08_synErr_position
+#print axioms C08_key_line_error_has_line
+#print axioms C08_key_line_error_position
+#print axioms C08_close_error_has_line
